@@ -22,13 +22,20 @@ def K(harness, labels, **kw):
 
 PROPS = {
     "C10": {"level": "model_checking", "bounds_text": BT, "G": G(["schema"], "^Harness_Schema_", "^C10/"),
-            "K": [K("^Harness_K4_", "^C10/")]},
+            "K": [K("^Harness_K4_", "^C10/"), K("^Harness_K7_", "^C10/", strmax=4, splitmax=3)]},
+    "C16": {"level": "model_checking", "bounds_text": BT, "K": [K("^Harness_K8_(CLI|ReadConfig)", "^C16/", strmax=4, splitmax=3)]},
+    "C14": {"level": "model_checking", "bounds_text": BT, "K": [K("^Harness_K8_ListOrder", "^C14/", strmax=3, splitmax=4)]},
+    "C02": {"level": "model_checking", "bounds_text": BT, "G": G(["schema"], "^Harness_Schema_", "^C02/"),
+            "K": [K("^Harness_K1_", "^C02/"), K("^Harness_K2_", "^C02/", strmax=4)]},
+    "C18": {"level": "model_checking", "bounds_text": BT, "K": [K("^Harness_K2_", "^C18/", strmax=4)]},
+    "C17": {"level": "model_checking", "bounds_text": BT, "K": [K("^Harness_K17_", "^C17/", strmax=4)]},
     "C11": {"level": "model_checking", "bounds_text": BT, "K": [K("^Harness_K4_Flags", "^C11/")]},
     "C03": {"level": "model_checking", "bounds_text": BT, "G": G(["rt"], "^Harness_RT_", "^C03/")},
     "C04": {"level": "model_checking", "bounds_text": BT, "G": G(["rt"], "^Harness_RT_", "^C04")},
     "C19": {"level": "model_checking", "bounds_text": BT, "G": G(["rt"], "^Harness_RT_", "C19/")},
     "C20": {"level": "model_checking", "bounds_text": BT, "G": G(["rt"], "^Harness_RT_", "^C20/")},
-    "C07": {"level": "model_checking", "bounds_text": BT, "G": G(["rt", "from"], "^Harness_(RT|From)_", "^C07/", programs="oneof|empty|mini")},
+    "C07": {"level": "model_checking", "bounds_text": BT, "G": G(["rt", "from"], "^Harness_(RT|From)_", "^C07/", programs="oneof|empty|mini"),
+            "K": [K("^Harness_K10_", "^C07/")]},
     "C05": {"level": "model_checking", "bounds_text": BT, "G": G(["from"], "^Harness_From_", "^C05/")},
     "C08": {"level": "model_checking", "bounds_text": BT, "G": G(["echo"], "^Harness_Echo_", "^C08/")},
     "C09": {"level": "model_checking", "bounds_text": BT, "G": G(["refresh"], "^Harness_Refresh_", "^C09/")},
